@@ -44,11 +44,14 @@ class Check(PropertyCheck):
         if kind in ("op", "sop"):
             M = rng.randint(1, 4)
             ms = rng.sample(range(M + 1), rng.randint(1, min(3, M + 1)))
+            if kind == "sop" and len(ms) == 1 and rng.random() < 0.6:
+                ms = ms + [max(ms) + 1]      # flexible: the machine assignment is a degree of freedom
             a = [ms, rng.randint(0, 9), rng.randint(0, 3), rng.randint(0, 3), rng.randint(0, 9)]
             b = copy.deepcopy(a)
             field = "none"
             if not same:
-                field = rng.choice(["machines", "dur", "job", "pos", "id"] + (["start", "machine"] if kind == "sop" else []))
+                field = rng.choice(["machines", "dur", "job", "pos", "id"] +
+                                   (["start", "start", "machine", "machine", "machine"] if kind == "sop" else []))
                 if field == "machines":
                     b[0] = b[0][:-1] if len(b[0]) > 1 and rng.random() < 0.5 else b[0] + [max(b[0]) + 1]
                 elif field in ("dur", "job", "pos", "id"):
